@@ -22,7 +22,7 @@ ANCHORS = ["decaylanguage.dec.dec:get_definitions", "decaylanguage.dec.dec:get_a
            "decaylanguage.dec.dec:get_lineshape_settings", "decaylanguage.dec.dec:get_lineshapePW_definitions", "decaylanguage.dec.dec:get_global_photos_flag"]
 WORKERS = {"quick": 4, "thorough": 16}
 WTESTS = {"groups": ['parse'], "tests": ['tests/dec'], "counts": ["C01.parse."]}
-REQUIRED = {"multi-file:part-without-final-newline": 10, "queries-asked-twice-with-returned-values-edited": 50, **{f"kind:{k}": 20 for k in KINDS}, **{f"repeated:{k}": 8 for k in KINDS if k not in ("LSPW", "LS", "BW", "CM", "INC", "Photos")},
+REQUIRED = {"copydecay-source-is-another-copy": 10, "multi-file:part-without-final-newline": 10, "queries-asked-twice-with-returned-values-edited": 50, **{f"kind:{k}": 20 for k in KINDS}, **{f"repeated:{k}": 8 for k in KINDS if k not in ("LSPW", "LS", "BW", "CM", "INC", "Photos")},
             "repeated-lineshape-setting(must-raise)": 10, "lineshape:several-kinds-one-particle": 10, "photos:absent": 10, "photos:one": 10, "photos:several-last-differs": 5,
             "photos:three-or-more": 5, "particle:width-default-real": 10, "particle:width-default-via-alias": 10, "particle:alias-name-reused-across-files": 5, "particle:explicit-width": 10,
             "jetset:int": 10, "jetset:float": 10, "jetset:signed": 5, "pythia:number": 10, "pythia:word": 10, "statements-between-blocks": 20,
@@ -62,7 +62,11 @@ def gen_file(ctx):
     for _ in range(count("Define")):
         st.append({"k": "Define", "name": key("Define", lambda: r.choice(["dm", "x", "y_1", "beta", g.label(odd=False)])), "value": g.numlit()})
     for _ in range(count("CopyDecay")):
-        st.append({"k": "CopyDecay", "a": key("CopyDecay", g.label), "b": g.label()})
+        src = g.label()
+        if keys["CopyDecay"] and r.random() < 0.3:
+            src = r.choice(keys["CopyDecay"])          # a copy of a copy: reported verbatim (the source is the other statement's new name)
+            hits.append("copydecay-source-is-another-copy")
+        st.append({"k": "CopyDecay", "a": key("CopyDecay", g.label), "b": src})
     for _ in range(count("CDecay")):
         st.append({"k": "CDecay", "name": key("CDecay", g.label)})
     for _ in range(count("Pythia")):
